@@ -29,6 +29,40 @@ class Injected(Exception):  # noqa: N818
     """Fault raised by instrumented data (not a LiquidError, not a lookup error)."""
 
 
+class BadValue:
+    """A data value whose __str__ or __eq__ raises: a fault on the *consumer* side of a
+    lambda filter (sort_natural stringifies the lambda's result, uniq compares it)."""
+
+    def __init__(self, mode: str):
+        self.mode = mode
+
+    def __str__(self) -> str:
+        if self.mode == "str":
+            raise Injected("injected fault in __str__")
+        return "bad"
+
+    def __eq__(self, other: object) -> bool:
+        if self.mode == "eq":
+            raise Injected("injected fault in __eq__")
+        return self is other
+
+    __hash__ = object.__hash__
+
+    def __tagged__(self) -> dict[str, str]:
+        return {"$c07bad": self.mode}
+
+
+def revive(o: Any) -> Any:
+    """Inverse of BadValue.__tagged__ for replayed witnesses."""
+    if isinstance(o, dict):
+        if len(o) == 1 and "$c07bad" in o:
+            return BadValue(o["$c07bad"])
+        return {k: revive(v) for k, v in o.items()}
+    if isinstance(o, list):
+        return [revive(v) for v in o]
+    return o
+
+
 class FaultPlan:
     """Raises at the k-th `__getitem__` on any container wrapped with this plan."""
 
@@ -76,7 +110,7 @@ def wrap_data(o: Any, plan: FaultPlan) -> Any:
         lst = FList(wrap_data(v, plan) for v in o)
         lst._plan = plan
         return lst
-    return o
+    return o  # (BadValue and scalars are passed through)
 
 
 def _same(a: tuple[Any, ...], b: tuple[Any, ...]) -> bool:
